@@ -271,6 +271,22 @@ class ExternalVariableCollector(NodeVisitor):
         self.assigned.add(node.arg)
 
 
+def _declared_global(tree):
+    """Names that the function declares global in its own scope."""
+    names = set()
+    todo = list(tree.body)
+    while todo:
+        node = todo.pop()
+        if isinstance(node, ast.Global):
+            names.update(node.names)
+        elif not isinstance(
+            node,
+            (ast.FunctionDef, ast.AsyncFunctionDef, ast.ClassDef, ast.Lambda),
+        ):
+            todo.extend(ast.iter_child_nodes(node))
+    return names
+
+
 class SimpleVariableCollector(NodeVisitor):
     def __init__(self, tree):
         self.vars = set()
@@ -297,12 +313,7 @@ class PteraTransformer(NodeTransformer):
         # A name that is declared global is read from and written to the
         # module all along, as the declaration asks: fetching it at entry
         # would store it into the module (with what an overrider supplies)
-        self.external -= {
-            name
-            for node in ast.walk(tree)
-            if isinstance(node, ast.Global)
-            for name in node.names
-        }
+        self.external -= _declared_global(tree)
         self.annotation_only = evc.ann_used - evc.real_used
         self.provenance = evc.provenance
         for ext in self.external:
